@@ -89,9 +89,9 @@ Definition cfg_of (m : mode) (st : strategy) (v : variant) (flt : option nat) : 
 
 Definition prefix_guard : variant :=     (* the code before "fix: renamers treat a dangling symlink ..." *)
   {| v_lexists_guard := false; v_recheck_after_mkdir := false; v_backlog_chdir := true;
-     v_dry_abs_keys := true; v_component_containment := true; v_dest_parent_containment := true |}.
+     v_dry_abs_keys := true; v_component_containment := true; v_dest_parent_containment := true; v_backlog_recheck := false |}.
 Definition no_recheck : variant :=       (* ... before "fix: FileMover re-checks the destination ..." *)
   {| v_lexists_guard := true; v_recheck_after_mkdir := false; v_backlog_chdir := true;
-     v_dry_abs_keys := true; v_component_containment := true; v_dest_parent_containment := true |}.
+     v_dry_abs_keys := true; v_component_containment := true; v_dest_parent_containment := true; v_backlog_recheck := false |}.
 
 Definition node_list_eqb (a b : list node) : bool := list_eqb node_eqb a b.
